@@ -11,7 +11,7 @@ from pta.rules.common import CGM, PREPROC, short
 
 LC = "pytato.target.loopy.codegen"
 NL = "pytato.target.python.numpy_like"
-GENERATORS = ("var_name_gen", "insn_id_gen", "vng", "namegen", "_generate_name_for_temp")
+GENERATORS = ("var_name_gen", "insn_id_gen", "vng", "_generate_name_for_temp")
 RESERVED = "_pt_"
 
 
@@ -19,7 +19,17 @@ def _is_gen_call(n):
     if not isinstance(n, ast.Call):
         return False
     f = ast.unparse(n.func)
-    return f.split(".")[-1] in GENERATORS
+    if f.split(".")[-1] in GENERATORS:
+        return True
+    # a local created as UniqueNameGenerator(...) in the enclosing function
+    if isinstance(n.func, ast.Name):
+        p = getattr(n, "_parent", None)
+        while p is not None and not isinstance(p, (ast.FunctionDef, ast.AsyncFunctionDef)):
+            p = getattr(p, "_parent", None)
+        if p is not None:
+            return phas(p, f"{n.func.id} = UniqueNameGenerator($$__a)") \
+                or phas(p, f"{n.func.id} = UniqueNameGenerator()")
+    return False
 
 
 def r_seed_first(c):
@@ -35,10 +45,16 @@ def r_seed_first(c):
     for qn, mapper_classes, mint_funcs in specs:
         fd = m.func(qn)
 
-        def is_seed(x):
-            return isinstance(x, ast.Call) and isinstance(x.func, ast.Attribute) \
-                and x.func.attr == "add_names" and ast.unparse(x.func.value).split(".")[-1] \
-                == "var_name_gen"
+        gens = {e["$g"] for e in find(fd, "$g = UniqueNameGenerator($$__a)")} \
+            | {e["$g"] for e in find(fd, "$g = UniqueNameGenerator()")}
+
+        def is_seed(x, gens=gens):
+            if not (isinstance(x, ast.Call) and isinstance(x.func, ast.Attribute)
+                    and x.func.attr == "add_names"):
+                return False
+            r = x.func.value
+            return (isinstance(r, ast.Attribute) and r.attr == "var_name_gen") \
+                or (isinstance(r, ast.Name) and r.id in gens)
         nseeds = sum(1 for x in ast.walk(fd) if is_seed(x))
         mints = set(mint_funcs)
         for st in ast.walk(fd):
@@ -258,8 +274,10 @@ def r_provenance(c):
                         ok_detail=p)
             # prefixes handed to generators are reserved or extend a validated name
             for call in ast.walk(fd):
-                if _is_gen_call(call) and call.args and ast.unparse(call.func).endswith(
-                        ("insn_id_gen", "namegen")):
+                if _is_gen_call(call) and call.args and (
+                        ast.unparse(call.func).endswith("insn_id_gen")
+                        or (isinstance(call.func, ast.Name) and phas(
+                            fd, f"{call.func.id} = UniqueNameGenerator(set(self.kernels_seen))"))):
                     c.exempt("R15-PROVENANCE", qn, f"prefix:{m.frag(call, 40)}",
                              m.loc(mi, call),
                              "instruction ids / callee kernel names are loopy name spaces "
